@@ -205,7 +205,7 @@ def _parse_schema(s: str) -> Schema:
     lines = list(reversed(s.splitlines()))  # to pop() in right order
     while lines:
         line = lines.pop().strip()
-        table_m = re.match(r'^(?P<table>\w.+):$', line)
+        table_m = re.match(r'^(?P<table>\w.*):$', line)
         field_m = re.match(r'\s*(?P<name>\S+)'
                            r'(\s+(?P<flags>[^#]+))?'
                            r'(\s*#\s*(?P<comment>.*)$)?',
